@@ -483,7 +483,9 @@ def rule_names():
             for fn_ in os.listdir(d):
                 if fn_.endswith(".py"):
                     with open(os.path.join(d, fn_)) as fh:
-                        names |= set(re.findall(r"[\"']\.?([a-z_][a-z0-9_]{2,})[\"']", fh.read()))
+                        src = fh.read()
+                        names |= set(re.findall(r"[\"']\.?([a-z_][a-z0-9_]{2,})[\"']", src))
+                        names |= set(re.findall(r"::([a-z_][a-z0-9_]{2,})[\"']", src))      # "path::to::anchor_fn"
         _RULE_NAMES = names
     return _RULE_NAMES
 
